@@ -3,6 +3,7 @@ From Coq Require Import List String.
 From VQ.Gen Require Import w_rlfq.
 Import ListNotations.
 Open Scope string_scope.
-Lemma pin_w_rlfq : w_rlfq =
+Definition pinned_w_rlfq : list string :=
   [].
+Lemma pin_w_rlfq : w_rlfq = pinned_w_rlfq.
 Proof. reflexivity. Qed.
